@@ -322,6 +322,10 @@ def drain(F, R):
         w = calls_on_field(cq, r'VecDeque::<T, A>::clear$', 'waiters')
         i1 = calls_on_field(cq, r'VecDeque::<T, A>::(clear|drain)$', 'inflight')
         R.ob('C07.drain', '%s|clear_queues|waiters.clear' % ver, bool(w), 'clear_queues does not drop the parked senders')
+        import c13
+        oks = c13.waiter_sends(cq)
+        R.ob('C07.drain', '%s|clear_queues|parked-parties-are-dropped-not-woken' % ver, not oks,
+             'clear_queues wakes a parked sender / payload stream with a success signal instead of dropping it: the parked operation resumes as if the connection were alive (writes into the closed io, reports Ok) instead of failing with Disconnected', cq.loc(oks[0][0]) if oks else None)
         # every path clears inflight: returns not reachable avoiding the clear/drain blocks
         blocks = {x[0] for x in i1}
         R.ob('C07.drain', '%s|clear_queues|inflight cleared on all paths' % ver, bool(blocks) and not (set(cq.returns()) & cq.reachable(0, avoid=blocks)), 'a path through clear_queues keeps outstanding reply channels alive')
